@@ -1,5 +1,5 @@
 """C07: a joiner ends up with exactly the members' state; a key package is used once."""
 from corecheck import run_core
 def run(ctx):
-    return run_core(ctx, "C07", mc_thorough=["MC_core_mid", "MC_ext"], driver={}, sim_cfgs=["SIM_core", "SIM_tree", "SIM_kem", "SIM_storage", "SIM_ext"], need_stats=("JoinWelcome:ok", "agreement_pairs", "kp_deleted_checks", "last_resort_kept_checks"), need_shapes=("joins", "unmerged"),
+    return run_core(ctx, "C07", mc_thorough=["MC_core_mid", "MC_ext"], driver={}, sim_cfgs=["SIM_core", "SIM_tree", "SIM_kem", "SIM_storage", "SIM_ext"], harness_flags=["--faults-write"], need_stats=("JoinWelcome:ok", "agreement_pairs", "kp_deleted_checks", "last_resort_kept_checks", "fault:Write"), need_shapes=("joins", "unmerged"),
                     invariants_note="Agreement, PrivMatchesPub, TreesValid include joiners (JoinWelcome action); concrete: joiner vs member equality oracles, private keys probed against the tree")
